@@ -464,7 +464,10 @@ def vm_harnesses() -> List[Harness]:
            "&& vm.arch.si == 0 && vm.arch.di == 0 && vm.arch.ip == 0 && vm.arch.ds == 0 && vm.arch.ss == 0 && vm.arch.es == 0")
     b += A("vm.new.memory_zero", "vm.mem[in_p] == 0")
     h = Harness("l0_vm_new", ["C19", "C09"], b, ["vm.new.flags_F000", "vm.new.cs_FFFF", "vm.new.other_registers_zero", "vm.new.memory_zero"], ["VM::new"], klass="M")
-    return [h]
+    # the other public way to obtain a machine (`impl Default for VM`): "a new machine ALWAYS starts with ..."
+    b2 = b.replace("VM::new()", "<VM as Default>::default()").replace("vm.new.", "vm.default.")
+    h2 = Harness("l0_vm_default", ["C19", "C09"], b2, ["vm.default.flags_F000", "vm.default.cs_FFFF", "vm.default.other_registers_zero", "vm.default.memory_zero"], ["VM::default"], klass="M")
+    return [h, h2]
 
 
 def lexer_harnesses() -> List[Harness]:
